@@ -29,6 +29,7 @@ def _item():
         "senter": st.sampled_from([False, False, True]),
         "sexit": st.sampled_from([False, True]),
         "xraise": st.sampled_from([False] * 11 + [True]),
+        "falsy": st.sampled_from([False] * 5 + [True]),
     })
 
 
@@ -216,7 +217,8 @@ def features(prog):
 BODY_ENDS = ["simple", "if_retk", "if_retv", "if_ret", "if_break", "if_continue", "if_raise", "try_except",
              "try_finally", "for", "while", "nested_with", "match", "if_else"]
 PLACES = ["top", "for", "try_body", "except", "finally", "else", "while"]
-SHAPES = ["single", "inner_of_two", "outer_of_two", "item0_of_2", "item1_of_2"]
+SHAPES = ["single", "inner_of_two", "outer_of_two", "item0_of_2", "item1_of_2", "async_inner_in_sync_outer",
+          "sync_inner_in_async_outer"]
 
 
 def _end_stmts(end, susp):
@@ -262,6 +264,8 @@ def table_programs():
             ["gen", "coro", "agen", "func"], [False, True], SHAPES, PLACES, BODY_ENDS, [False, True], [False, True]):
         if is_async and kind in ("gen", "func"):
             continue
+        if shape in ("async_inner_in_sync_outer", "sync_inner_in_async_outer") and not is_async:
+            continue   # the mixed-flavour shapes exist once, under is_async=True
         if end in ("if_break", "if_continue") and place not in ("for", "while"):
             continue
         if swallow and end != "if_raise":
@@ -272,8 +276,9 @@ def table_programs():
             ctr[0] += 1
             return {"t": "susp", "k": ctr[0]} if kind != "func" else {"t": "probe", "k": ctr[0]}
 
-        def item(m):
-            return {"m": m, "target": "name", "swallow": swallow, "senter": False, "sexit": is_async, "xraise": False}
+        def item(m, a=None):
+            a = is_async if a is None else a
+            return {"m": m, "target": "name", "swallow": swallow, "senter": False, "sexit": a, "xraise": False}
 
         body = _end_stmts(end, susp)
         if shape == "single":
@@ -284,6 +289,12 @@ def table_programs():
         elif shape == "outer_of_two":
             w = {"t": "with", "async": is_async, "items": [item(1)], "layout": "one", "body": [
                 {"t": "with", "async": is_async, "items": [item(2)], "layout": "one", "body": [susp()]}] + body}
+        elif shape == "async_inner_in_sync_outer":
+            w = {"t": "with", "async": False, "items": [item(1, False)], "layout": "one", "body": [
+                {"t": "with", "async": True, "items": [item(2, True)], "layout": "one", "body": body}]}
+        elif shape == "sync_inner_in_async_outer":
+            w = {"t": "with", "async": True, "items": [item(1, True)], "layout": "one", "body": [
+                {"t": "with", "async": False, "items": [item(2, False)], "layout": "one", "body": body}]}
         elif shape == "item0_of_2":
             w = {"t": "with", "async": is_async, "items": [item(1), item(2)], "layout": "one", "body": body}
         else:
